@@ -45,3 +45,21 @@ pub open spec fn cfb8_dec_step(e: spec_fn(Blk) -> Blk) -> Step {
 pub open spec fn ofb_step(e: spec_fn(Blk) -> Blk) -> Step {
     |a: Abs, x: Blk| { let o = e(a[0]); (seq![o], xor_seq(x, o)) }
 }
+
+// buffered CFB (byte granular): state (iv, pos) with iv = the current keystream block whose first
+// `pos` bytes have already been replaced by ciphertext bytes; pos < |iv| is the representation
+// invariant.  Per byte: o = x ^ iv[pos]; the ciphertext byte is fed back into iv[pos]; when the block
+// is full it is enciphered to give the next keystream block.
+pub open spec fn cfb_buf_run(e: spec_fn(Blk) -> Blk, iv: Seq<u8>, pos: int, data: Seq<u8>, enc: bool) -> (Seq<u8>, int, Seq<u8>)
+    decreases data.len()
+{
+    if data.len() == 0 { (iv, pos, Seq::empty()) } else {
+        let x = data[0];
+        let o = x ^ iv[pos];
+        let fb = if enc { o } else { x };
+        let iv1 = iv.update(pos, fb);
+        let (iv2, pos2) = if pos + 1 == iv.len() { (e(iv1), 0int) } else { (iv1, pos + 1) };
+        let r = cfb_buf_run(e, iv2, pos2, data.skip(1), enc);
+        (r.0, r.1, seq![o] + r.2)
+    }
+}
